@@ -62,8 +62,25 @@ pub struct RdbEngine {
     /// Last save time
     last_save_time: Arc<RwLock<Option<SystemTime>>>,
     
+    /// Serialises writers of the temporary dump file (SAVE, BGSAVE thread, auto-save,
+    /// SHUTDOWN): they all write `<dump>.tmp` and rename it over the dump
+    save_lock: Arc<Mutex<()>>,
+    
     /// Configuration
     config: RdbConfig,
+}
+
+/// Clears the background-save flag when dropped, i.e. on every way out of the BGSAVE
+/// thread, including a panic while saving
+struct BgsaveFlagGuard(Arc<Mutex<bool>>);
+
+impl Drop for BgsaveFlagGuard {
+    fn drop(&mut self) {
+        match self.0.lock() {
+            Ok(mut flag) => *flag = false,
+            Err(poisoned) => *poisoned.into_inner() = false,
+        }
+    }
 }
 
 /// RDB configuration
@@ -111,6 +128,7 @@ impl RdbEngine {
             file_path,
             bgsave_in_progress: Arc::new(Mutex::new(false)),
             last_save_time: Arc::new(RwLock::new(None)),
+            save_lock: Arc::new(Mutex::new(())),
             config,
         }
     }
@@ -135,7 +153,9 @@ impl RdbEngine {
     /// Perform blocking save
     pub fn save(&self, storage: &Arc<StorageEngine>) -> Result<()> {
         // Note: We don't check bgsave_in_progress here because save() can be called
-        // from within bgsave() thread. The caller is responsible for managing concurrency.
+        // from within bgsave() thread. All writers of the temporary file are serialised
+        // by save_lock instead, so two saves can never interleave in `<dump>.tmp`.
+        let _writer = self.save_lock.lock().unwrap_or_else(|poisoned| poisoned.into_inner());
         
         // Create temporary file
         let temp_path = self.file_path.with_extension("tmp");
@@ -176,16 +196,15 @@ impl RdbEngine {
         
         // Spawn background thread
         thread::spawn(move || {
+            // Clear the in-progress flag however this thread ends (return or panic)
+            let _in_progress = BgsaveFlagGuard(Arc::clone(&engine.bgsave_in_progress));
+            
             println!("RDB: Background saving started");
             
             match engine.save(&storage) {
                 Ok(_) => println!("RDB: Background saving terminated with success"),
                 Err(e) => eprintln!("RDB: Background saving error: {}", e),
             }
-            
-            // Clear in-progress flag
-            let mut bgsave = engine.bgsave_in_progress.lock().unwrap();
-            *bgsave = false;
         });
         
         Ok(())
@@ -467,6 +486,7 @@ impl Clone for RdbEngine {
             file_path: self.file_path.clone(),
             bgsave_in_progress: Arc::clone(&self.bgsave_in_progress),
             last_save_time: Arc::clone(&self.last_save_time),
+            save_lock: Arc::clone(&self.save_lock),
             config: self.config.clone(),
         }
     }
